@@ -235,6 +235,7 @@ def run(ctx):
     # the splitting step vs the Lean model (shared with C02)
     import p_c02
     p_c02.split_block(ctx, rng)
+    p_c02.split_call_sequence_block(ctx, rng)
 
 
 def replay(rep):
